@@ -191,7 +191,9 @@ func (c *Confirm) Get(w http.ResponseWriter, r *http.Request) error {
 
 	rawToken, err := base64.URLEncoding.DecodeString(values.GetToken())
 	if err != nil {
-		logger.Infof("error decoding token in Confirm.Get, this typically means a bad token: %s %+v", values.GetToken(), err)
+		// Do not log the submitted value: a genuine token followed by a stray
+		// character fails to decode, yet remains usable.
+		logger.Infof("error decoding token in Confirm.Get, this typically means a bad token: %+v", err)
 		return c.invalidToken(w, r)
 	}
 
